@@ -1490,13 +1490,14 @@ class ClientStreamStack(Stack):
         if not received:  # nothing changed
             return False
 
-        packet = self.parserize(self.rxbs[:])
-
-        if packet is not None:  # queue packet
+        while self.rxbs:  # a reception may hold several packets
+            packet = self.parserize(self.rxbs[:])
+            if packet is None or not packet.size:  # not enough for a packet yet
+                break
             console.profuse("{0}: received\n    0x{1}\n".format(self.name,
                             hexlify(self.rxbs[:packet.size]).decode('ascii')))
             del self.rxbs[:packet.size]
-            self.rxPkts.append(packet)
+            self.rxPkts.append(packet)  # queue packet
         return True  # received data
 
 
@@ -1709,14 +1710,15 @@ class TcpClientStack(ClientStreamStack, IpStack):
         if not received:  # nothing changed
             return False
 
-        packet = self.parserize(self.rxbs[:])
-
-        if packet is not None:  # queue packet
+        while self.rxbs:  # a reception may hold several packets
+            packet = self.parserize(self.rxbs[:])
+            if packet is None or not packet.size:  # not enough for a packet yet
+                break
             console.profuse("{0}: received from {1}\n    0x{2}\n".format(self.name,
                                                                      self.remote.ha,
                             hexlify(self.rxbs[:packet.size]).decode('ascii')))
             del self.rxbs[:packet.size]
-            self.rxPkts.append(packet)
+            self.rxPkts.append(packet)  # queue packet
         return True  # received data
 
     def serviceReceives(self):
